@@ -135,6 +135,9 @@ func runHistoryRaw(t *testing.T, h *History) {
 			if op.Method == "(empty)" {
 				req.Method = ""
 			}
+			if op.SetPath != "" {
+				req.URL.Path, req.URL.RawPath = op.SetPath, ""
+			}
 			for _, p := range op.Hdr {
 				req.Header.Add(p[0], p[1])
 			}
